@@ -573,9 +573,16 @@ func c05RunMem(cs *c05Case, gate *c05Gate) (res c05Result) {
 	defer cancel()
 	go func() {
 		defer close(done)
+		var gateOnce sync.Once
+		openGate := func() {
+			if gate != nil {
+				gateOnce.Do(func() { close(gate.prologueDone) })
+			}
+		}
 		defer func() {
 			if r := recover(); r != nil {
 				po.panicked = fmt.Sprint(r)
+				openGate()
 			}
 		}()
 		po.relay, po.domain, po.reached, po.cleanups, po.err = cp.verifC05Prologue(ctx, L, src, dst, rr)
@@ -590,7 +597,7 @@ func c05RunMem(cs *c05Case, gate *c05Gate) (res c05Result) {
 		R.idleOK = false
 		clk.mu.Unlock()
 		if gate != nil {
-			close(gate.prologueDone)
+			openGate()
 			<-gate.startRelay
 		}
 		if po.reached {
